@@ -265,6 +265,14 @@ class World:
             if len(act) > 1 and act[1] == 'base':
                 raise BoomBase(tag)
             raise Boom(tag)
+        elif k == 'raise_first_level':
+            # (handlers of `exception` events) fail when told about the failure of an ordinary event, not when told about the failure of
+            # another error handler - so that the chain of error events ends
+            fe = event.kwargs.get('fevent') if hasattr(event, 'kwargs') else None
+            if getattr(fe, 'name', None) != 'exception':
+                tag = 'x%d.%d.%d' % (uid, hid, len(self.log))
+                self.L('PX', uid, hid, tag)
+                raise Boom(tag)
         elif k == 'ret':
             tag = 'v%d.%d.%s' % (uid, hid, act[1])
             self.L('P', uid, hid, tag)
@@ -352,7 +360,9 @@ class World:
     def _sys_uid(self, event):
         """started/stopped events handled by program handlers get a ghost uid on first sight."""
         parent = None
-        if event.name not in ('started', 'stopped'):
+        if event.name == 'exception' and getattr(event, 'parent', None) is None:
+            pass      # an `exception` event the program declares handlers for: an event like any other (its handlers may fail, too)
+        elif event.name not in ('started', 'stopped'):
             # feedback events (<name>_failure, <name>_success, ...) that the program declares handlers for: children of the event they
             # are about - what their handlers fire belongs to that event's consequences
             par = getattr(event, 'parent', None)
